@@ -170,6 +170,8 @@ pub fn run(topos: &str, events: &str, results: &str) {
     let seed = vh_core::seed_from_env();
     let pairs_per_topo: usize = std::env::var("SN_PAIRS").ok().and_then(|s| s.parse().ok()).unwrap_or(6);
     let paths_per_pair: usize = std::env::var("SN_PATHS").ok().and_then(|s| s.parse().ok()).unwrap_or(4);
+    // none: segments and offered sets only; honest: + honest packets and their reverse; all: + attacker mutations
+    let inject_mode = std::env::var("SN_INJECT").unwrap_or_else(|_| "all".into());
     let mut rec = Rec { out: &mut out, events: 0, steps: 0, injects: 0, nontrivial: 0, by_fam: HashMap::new(), by_verdict: HashMap::new() };
     rec.ev(json!({"ev": "meta", "spec": "ScionNet", "seed": seed}));
     let mut ntopo = 0u64;
@@ -283,7 +285,7 @@ pub fn run(topos: &str, events: &str, results: &str) {
             rng.shuffle(&mut idx);
             // always include the most structured paths
             idx.sort_by_key(|i| offs[*i].model.as_ref().map(|m| if path_class(m) == "plain" { 1 } else { 0 }).unwrap_or(2));
-            for i in idx.into_iter().take(paths_per_pair) {
+            for i in idx.into_iter().take(if inject_mode == "none" { 0 } else { paths_per_pair }) {
                 let Some(m) = offs[i].model.clone() else { continue };
                 let cls = path_class(&m);
                 let now = TS + 2;
@@ -293,6 +295,9 @@ pub fn run(topos: &str, events: &str, results: &str) {
                             rec.inject(&mut w, "honest-rev", cls, &r, dst, src, dst, 0, now, &[]);
                         }
                     }
+                }
+                if inject_mode != "all" {
+                    continue;
                 }
                 // seeded attacker mutations
                 let nh = m.hop_field_count();
